@@ -76,6 +76,9 @@ struct Excl {
     limit_with_order: bool,
     mixed_tiers: bool,
     where_not_returned: bool,
+    /// C01's open findings (WAL files not pruned after a clean restart / after compaction + restart) store events twice;
+    /// selections de-duplicate by id, but LIMIT is applied before that and then returns fewer rows than exist
+    no_restart: bool,
 }
 
 const SORT_FIELDS: [&str; 7] = ["x", "f", "s", "t", "o", "u", "timestamp"];
@@ -89,7 +92,7 @@ fn case_strategy(tier: Tier, ex: Excl, wx: crate::props::c02::WhereExcl) -> Boxe
                 .prop_map(|(ctx, x, f, s, t, o, u)| Ev { ty: 0, ctx, vals: vec![json!(x), json!(f), json!(s), json!(1_700_000_000i64 + t * 1800), o.map(|v| json!(v)).unwrap_or(Value::Null), json!(u)] });
             let op = prop_oneof![30 => ev.prop_map(Op::Store), 3 => (0u32..5).prop_map(Op::Clock), 2 => Just(Op::Flush), 2 => Just(Op::Barrier), 2 => (1u8..=2).prop_map(Op::Compact)];
             let ops = prop::collection::vec(op, 8..=tier.pick(50, 90));
-            let tail = prop::collection::vec(prop_oneof![3 => Just(Op::Flush), 2 => (1u8..=2).prop_map(Op::Compact), 2 => Just(Op::Restart)], 1..=2);
+            let tail = prop::collection::vec(prop_oneof![3 => Just(Op::Flush), 2 => (1u8..=2).prop_map(Op::Compact), 2 => Just(if ex.no_restart { Op::Barrier } else { Op::Restart })], 1..=2);
             let fields: Vec<&'static str> = SORT_FIELDS.iter().enumerate().filter(|(i, _)| !ex.order_by[*i]).map(|(_, f)| *f).collect();
             let wh = where_strategy(&TypeDef { name: "ev".into(), fields: td.fields.iter().filter(|f| f.name == "x").cloned().collect() }, 1);
             let order = if fields.is_empty() { Just(None).boxed() } else { opt_w(0.8, (prop::sample::select(fields), any::<bool>()).prop_map(|(f, d)| (f.to_string(), d))) };
@@ -132,7 +135,7 @@ fn cmp_keys(a: &Value, b: &Value) -> Option<Ordering> {
 static EXCL: Mutex<Option<Excl>> = Mutex::new(None);
 
 fn run_case(c: &Case, rep: &mut CaseReport) -> Verdict {
-    let ex = EXCL.lock().unwrap().unwrap_or(Excl { order_by: [false; 7], offset: false, limit_with_order: false, mixed_tiers: false, where_not_returned: false });
+    let ex = EXCL.lock().unwrap().unwrap_or(Excl { order_by: [false; 7], offset: false, limit_with_order: false, mixed_tiers: false, where_not_returned: false, no_restart: false });
     let types = vec![c.td.clone()];
     let mut w = match World::start("c10", &c.cfg, &types, true) {
         Ok(w) => w,
@@ -213,7 +216,11 @@ fn run_case(c: &Case, rep: &mut CaseReport) -> Verdict {
             let n = q.limit.map(|l| l as usize).unwrap_or(usize::MAX);
             let expect_len = matching.len().saturating_sub(m).min(n);
             if got.len() != expect_len {
-                return Verdict::fail("slice-size", json!({"cmd": text, "got": got.len(), "expected": expect_len, "matching": matching.len(), "layout": layout, "log": w.db.log}));
+                // context for triage: the same selection without LIMIT / OFFSET and the aggregate count, right now
+                let all_now = w.db.cmd(&"QUERY ev".to_string()).map(|r| ks_of(&r).len()).unwrap_or(0);
+                let count_now = w.db.cmd(&"QUERY ev COUNT".to_string()).ok().and_then(|r| r.rows.first().and_then(|x| x.first()).and_then(|v| v.as_i64()));
+                let live: Vec<Vec<String>> = (0..c.cfg.shard_count).map(|s| w.db.live(s).unwrap_or_default()).collect();
+                return Verdict::fail("slice-size", json!({"cmd": text, "got": got.len(), "expected": expect_len, "matching": matching.len(), "all_rows_now": all_now, "count_now": count_now, "live": live, "layout": layout, "log": w.db.log}));
             }
             if let Some((field, desc)) = &q.order {
                 // key of a model event / of a returned row
@@ -324,7 +331,7 @@ pub fn run(ctx: &Ctx) -> i32 {
     for (i, f) in SORT_FIELDS.iter().enumerate() {
         order_by[i] = ctx.open(&format!("order.by_{}", f));
     }
-    let ex = Excl { order_by, offset: ctx.open("order.offset"), limit_with_order: ctx.open("order.limit_with_order"), mixed_tiers: ctx.open("order.memory_and_segments"), where_not_returned: ctx.open("order.where_field_not_returned") };
+    let ex = Excl { order_by, offset: ctx.open("order.offset"), limit_with_order: ctx.open("order.limit_with_order"), mixed_tiers: ctx.open("order.memory_and_segments"), where_not_returned: ctx.open("order.where_field_not_returned"), no_restart: ctx.open_any("crash.after_manual_flush_or_clean_restart") || ctx.open_any("crash.store_after_compaction_and_restart") };
     *EXCL.lock().unwrap() = Some(ex);
     crate::props::c02::KNOWN_ID_REUSE.store(ctx.open_any("layout.stale_cache_after_id_reuse"), std::sync::atomic::Ordering::Relaxed);
     let wx = crate::props::c02::WhereExcl::from_ctx_any(ctx);
